@@ -304,7 +304,30 @@ def _run_path(fn, cx, eng):
         gap = _stub_gap(e)
         if gap:
             return PathResult("inconclusive", eng, gap, traceback.format_exc())
-        return PathResult("exception", eng, "%s: %s" % (type(e).__name__, e), traceback.format_exc())
+        return PathResult("exception", eng, _exc_msg(e), _safe_tb())
+
+
+def _exc_msg(e):
+    """type and message of an exception whose arguments may be symbolic values (which cannot be rendered)"""
+    eng = core.CUR
+    before = (eng.pending, eng.poison) if eng is not None else None
+    try:
+        return "%s: %s" % (type(e).__name__, e)
+    except BaseException:
+        if eng is not None:
+            eng.pending, eng.poison = before      # rendering the message is not part of the execution under test
+        return "%s: <message contains symbolic values>" % type(e).__name__
+
+
+def _safe_tb():
+    eng = core.CUR
+    before = (eng.pending, eng.poison) if eng is not None else None
+    try:
+        return traceback.format_exc()
+    except BaseException:
+        if eng is not None:
+            eng.pending, eng.poison = before
+        return "<traceback contains symbolic values>"
 
 
 def _stub_gap(e):
